@@ -44,6 +44,9 @@ def cond_true(D):
     if h == 'call':
         callee = D[1]
         m = re.search(r' as core::cmp::Partial(Eq|Ord)(<.*>)?>::(eq|ne|lt|le|gt|ge)$', callee)
+        if not m:
+            # `&A == &B` (core's forwarding impls for references compare the referents; references are transparent in terms)
+            m = re.search(r'core::cmp::impls::<impl core::cmp::Partial(Eq|Ord)(<.*>)? for &(?:mut )?[^>]*(?:<.*>)?>::(eq|ne|lt|le|gt|ge)$', callee)
         if m:
             op = m.group(3)
             a, b = D[2][0], D[2][1]
